@@ -144,6 +144,21 @@ func (pc *propCheck) runWitness(w *witness, extraArgs ...string) witnessOutcome 
 		if !o.Behaved && !o.Crashed && o.Exit == 0 {
 			o.Observed += fmt.Sprintf("; Definition %s at offset %d, Definition %s at offset %d (use before definition)", ab[0], ia, ab[1], ib)
 		}
+	case strings.HasPrefix(w.Expect, "contains:"):
+		// contains:A|||B|||C — every text must occur in the emitted files, in this order
+		o.Behaved = !o.Crashed && o.Exit == 0
+		at := 0
+		for _, part := range strings.Split(strings.TrimPrefix(w.Expect, "contains:"), "|||") {
+			i := strings.Index(o.Coq[at:], part)
+			if i < 0 {
+				if o.Behaved {
+					o.Observed += fmt.Sprintf("; the output lacks %q (after the texts before it)", part)
+				}
+				o.Behaved = false
+				break
+			}
+			at += i + len(part)
+		}
 	case strings.HasPrefix(w.Expect, "notcontains:"):
 		o.Behaved = !o.Crashed && !strings.Contains(o.Coq, strings.TrimPrefix(w.Expect, "notcontains:"))
 		if !o.Behaved && !o.Crashed {
